@@ -54,38 +54,63 @@ func extractFiles(input *requests.Request) *UploadMap {
 		return uploadMap
 	}
 	for varName, value := range input.Variables {
-		uploadMap.extract(value, varName)
-		// if the value was an upload, set the respective Request variable to null
-		if _, ok := value.(*requests.Upload); ok {
-			input.Variables[varName] = nil
+		// objects and lists inside the variables can be shared with the requests to other services,
+		// so the ones which hold an upload are copied instead of being changed in place
+		if newValue, isChanged := uploadMap.extract(value, varName); isChanged {
+			input.Variables[varName] = newValue
 		}
 	}
 	return uploadMap
 }
 
-func (u *UploadMap) extract(value interface{}, path string) {
+// extract registers the uploads found in value and returns the value with uploads replaced by null
+func (u *UploadMap) extract(value interface{}, path string) (interface{}, bool) {
 	switch val := value.(type) {
 	case *requests.Upload: // Upload found
 		u.Add(val, path)
+		return nil, true
 	case map[string]interface{}:
+		var res map[string]interface{}
 		for k, v := range val {
-			u.extract(v, fmt.Sprintf("%s.%s", path, k))
-			// if the value was an upload, set the respective QueryInput variable to null
-			switch v.(type) {
-			case *requests.Upload, requests.Upload:
-				val[k] = nil
+			newValue, isChanged := u.extract(v, fmt.Sprintf("%s.%s", path, k))
+			if _, ok := v.(requests.Upload); ok {
+				newValue, isChanged = nil, true
 			}
+			if !isChanged {
+				continue
+			}
+			if res == nil {
+				res = make(map[string]interface{}, len(val))
+				for ck, cv := range val {
+					res[ck] = cv
+				}
+			}
+			res[k] = newValue
+		}
+		if res != nil {
+			return res, true
 		}
 	case []interface{}:
+		var res []interface{}
 		for i, v := range val {
-			u.extract(v, fmt.Sprintf("%s.%d", path, i))
-			// if the value was an upload, set the respective QueryInput variable to null
-			switch v.(type) {
-			case *requests.Upload, requests.Upload:
-				val[i] = nil
+			newValue, isChanged := u.extract(v, fmt.Sprintf("%s.%d", path, i))
+			if _, ok := v.(requests.Upload); ok {
+				newValue, isChanged = nil, true
 			}
+			if !isChanged {
+				continue
+			}
+			if res == nil {
+				res = make([]interface{}, len(val))
+				copy(res, val)
+			}
+			res[i] = newValue
+		}
+		if res != nil {
+			return res, true
 		}
 	}
+	return value, false
 }
 
 func prepareMultipart(payload []byte, uploadMap UploadMap) (body []byte, contentType string, err error) {
